@@ -18,10 +18,10 @@ def run(ctx):
              "negative, bal/2, random}; fee 100000 or the exact minimum 10000; accounts get drained and refilled; "
              "non-trivial = code 0; distinct = distinct trace line")
     ctx.assume("genesis balances are non-negative and supply = Σ balances (checked by the init line)")
-    ctx.stream("sends", "c18", DRIVER, n=40000 if ctx.thorough else 1500)
+    ctx.stream("sends", "c18", DRIVER, n=20000 if ctx.thorough else 1500)
     if ctx.thorough:
         for s in range(3):
-            ctx.stream(f"sends-s{s}", "c18", DRIVER, n=20000, seed=ctx.seed * 1000 + 181 + s)
+            ctx.stream(f"sends-s{s}", "c18", DRIVER, n=8000, seed=ctx.seed * 1000 + 181 + s)
 
 
 def search(ctx):
